@@ -77,8 +77,10 @@ impl StoreInstance {
 pub struct Subscribers { _p: u8 }
 impl Subscribers {
     uninterp spec fn view(&self) -> Seq<Event>;
+    // (the return value is named because this Verus version drops the `final(self)` clauses of an async fn whose
+    //  unit return is left unnamed)
     #[verifier::external_body]
-    async fn send(&mut self, event: Event)
+    async fn send(&mut self, event: Event) -> (r: ())
         ensures final(self)@ == old(self)@.push(event)
     { unimplemented!() }
 }
